@@ -421,6 +421,7 @@ static int sweep_c13(int argc, char **argv) {
     unsigned long long lo = strtoull(argv[0], NULL, 0), hi = strtoull(argv[1], NULL, 0);
     int begun = atoi(argv[2]);
     uint32_t ni0 = (uint32_t)strtoul(argv[3], NULL, 0);
+    uint64_t clk_base = argc > 4 ? strtoull(argv[4], NULL, 0) : 1000;      /* a monotonic clock may have any origin */
     unsigned long long cases = 0, nontriv = 0;
     uint64_t prev_ni = 0, prev_iv = 0;
     int have_prev = 0;
@@ -430,7 +431,7 @@ static int sweep_c13(int argc, char **argv) {
     for (unsigned long long r = start; r < hi; r++) {
         memset(&b, 0, sizeof(b));
         b.Ni = ni0; b.r = (uint32_t)r; b.begun = begun != 0;
-        vp_now_ms = 1000 + (r & 1023);
+        vp_now_ms = clk_base + (r & 1023);
         band_update_stats(&b);
         uint64_t exp;
         if (r > 0 && begun) {
@@ -455,9 +456,10 @@ static int sweep_c13(int argc, char **argv) {
         uint64_t iv = ts - now;
         uint64_t need = ((uint64_t)8 * b.Ni + 2) / 3;
         if (need < 6) need = 6;
-        if (ts != b.hello_timeout_ts || iv < need) {
+        if (ts != b.hello_timeout_ts || ts < now || iv < need) {
             bad = 1;
-            viol("C13:interval-below-load-formula", "r=%llu Ni=%u: interval %llu ms < %llu ms", r, b.Ni,
+            viol("C13:interval-below-load-formula", "r=%llu Ni=%u clock=%llu ms: next Hello at %llu (recorded %llu), interval %llu ms < %llu ms",
+                 r, b.Ni, (unsigned long long)now, (unsigned long long)ts, (unsigned long long)b.hello_timeout_ts,
                  (unsigned long long)iv, (unsigned long long)need);
         }
         if (have_prev && begun && r >= 2) {   /* the formula (hence monotonicity) applies to r > 0 only */
@@ -479,6 +481,7 @@ static int sweep_c13v(int argc, char **argv) {
     if (argc < 2) return 3;
     int begun = atoi(argv[0]);
     uint32_t ni0 = (uint32_t)strtoul(argv[1], NULL, 0);
+    uint64_t clk_base = argc > 2 ? strtoull(argv[2], NULL, 0) : 5000;
     unsigned long long cases = 0, nontriv = 0, r, prev_r = 0;
     uint64_t prev_ni = 0, prev_iv = 0;
     int have_prev = 0;
@@ -486,7 +489,7 @@ static int sweep_c13v(int argc, char **argv) {
     while (scanf("%llu", &r) == 1) {
         memset(&b, 0, sizeof(b));
         b.Ni = ni0; b.r = (uint32_t)r; b.begun = begun != 0;
-        vp_now_ms = 5000 + (r & 4095);
+        vp_now_ms = clk_base + (r & 4095);
         band_update_stats(&b);
         unsigned __int128 v = (unsigned __int128)45 * r * r;
         uint64_t exp = (r > 0 && begun) ? (v > 10000 ? 10000 : (uint64_t)v) : ni0;
@@ -499,7 +502,7 @@ static int sweep_c13v(int argc, char **argv) {
         uint64_t ts = band_choose_hello_time(&b);
         uint64_t iv = ts - now, need = ((uint64_t)8 * b.Ni + 2) / 3;
         if (need < 6) need = 6;
-        if (ts != b.hello_timeout_ts || iv < need) { bad = 1; viol("C13:interval-below-load-formula", "r=%llu Ni=%u: interval %llu < %llu", r, b.Ni, (unsigned long long)iv, (unsigned long long)need); }
+        if (ts != b.hello_timeout_ts || ts < now || iv < need) { bad = 1; viol("C13:interval-below-load-formula", "r=%llu Ni=%u clock=%llu ms: next Hello at %llu (recorded %llu), interval %llu < %llu", r, b.Ni, (unsigned long long)now, (unsigned long long)ts, (unsigned long long)b.hello_timeout_ts, (unsigned long long)iv, (unsigned long long)need); }
         if (have_prev && begun && r >= prev_r && prev_r >= 1) {
             if (b.Ni < prev_ni) { bad = 1; viol("C13:monotone:ni-decreases", "r=%llu: Ni=%u < Ni(%llu)=%llu", r, b.Ni, prev_r, (unsigned long long)prev_ni); }
             if (iv < prev_iv) { bad = 1; viol("C13:monotone:interval-decreases", "r=%llu: interval %llu < %llu", r, (unsigned long long)iv, (unsigned long long)prev_iv); }
@@ -521,6 +524,12 @@ static int find_state(automata *a, const char *name) {
     return -1;
 }
 
+/* idle periods far beyond any timeout: a responder mapped in the evening and again the next morning, a clock difference
+ * that no longer fits 15, 16, 31 or 32 bits */
+#define EL_LONG 60, 3600, 32767, 32768, 32769, 40000, 65535, 65536, 65537, 86400, 604800, 2147483647LL, 2147483648LL, \
+                4294967295LL, 4294967296LL, 4294967297LL, 4294967296LL + 40000, 1LL << 40
+#define NEL (5 + 18)
+
 static int sweep_c14(int argc, char **argv) {
     (void)argc; (void)argv;
     automata *a = init_automata_mapping();
@@ -540,10 +549,10 @@ static int sweep_c14(int argc, char **argv) {
         long t = a->states_table[s].timeout;
         if (s != Q && !(t > 0 && t <= 30))
             viol("C14:timeout-value", "state %s has timeout %ld s (must be in (0,30])", sn[s], t);
-        long el[5] = {0, t - 1, t, t + 1, 10 * t};
+        long long el[NEL] = {0, t - 1, t, t + 1, 10 * t, EL_LONG};
         if (s == Q) { el[1] = 1; el[2] = 30; el[3] = 31; el[4] = 300; }
         for (int in = -128; in <= 255; in++) {
-            for (int k = 0; k < 5; k++) {
+            for (int k = 0; k < NEL; k++) {
                 if (el[k] < 0) continue;
                 uint64_t base = 100000;
                 a->current_state = (uint8_t)s;
@@ -566,7 +575,7 @@ static int sweep_c14(int argc, char **argv) {
                     char key[128];
                     snprintf(key, sizeof(key), "C14:step:%s:%s", sn[s],
                              timed_out ? "timeout-not-honoured" : (exp == s ? "spurious-transition" : "missing-transition"));
-                    viol(key, "state=%s input=%d elapsed=%lds (timeout %lds): new state %d, expected %s%d", sn[s], in, el[k], t, got,
+                    viol(key, "state=%s input=%d elapsed=%llds (timeout %lds): new state %d, expected %s%d", sn[s], in, el[k], t, got,
                          timed_out ? "idle or reopened, e.g. " : "", timed_out ? Q : exp);
                 } else if (got != s) nontriv++;
                 /* the timer must run from this input - observable only while a timeout is armed (active state) */
@@ -596,10 +605,10 @@ static int sweep_c15(int argc, char **argv) {
     for (int oi = 0; oi < 4; oi++) {
         int s = order[oi];
         long t = a->states_table[s].timeout;
-        long el[5] = {0, t - 1, t, t + 1, 10 * t};
+        long long el[NEL] = {0, t - 1, t, t + 1, 10 * t, EL_LONG};
         if (t <= 0) { el[1] = 1; el[2] = 2; el[3] = 60; el[4] = 600; }
         for (int ev = 0; ev <= 7; ev++) {
-            for (int k = 0; k < 5; k++) {
+            for (int k = 0; k < NEL; k++) {
                 if (el[k] < 0) continue;
                 uint64_t base = 50000;
                 a->current_state = (uint8_t)s;
@@ -627,14 +636,14 @@ static int sweep_c15(int argc, char **argv) {
                 int timed_out = t > 0 && el[k] > t;
                 int ok = timed_out ? (got == N || got == expn) : (got == exp);
                 if (a->last_ts != base + (uint64_t)el[k])
-                    viol("C15:last-ts-not-updated", "state=%s event=%d elapsed=%lds: last_ts=%llu, now=%llu (the inactivity "
+                    viol("C15:last-ts-not-updated", "state=%s event=%d elapsed=%llds: last_ts=%llu, now=%llu (the inactivity "
                          "timeout is measured from the last input)", sn[s], ev, el[k], (unsigned long long)a->last_ts,
                          (unsigned long long)(base + (uint64_t)el[k]));
                 if (!ok) {
                     char key[128];
                     snprintf(key, sizeof(key), "C15:step:%s:event=%d:%s", sn[s], ev,
                              timed_out ? "timeout-not-honoured" : (exp == s ? "spurious-transition" : "missing-transition"));
-                    viol(key, "state=%s event=%d elapsed=%lds (timeout %lds): new state %s, expected %s", sn[s], ev, el[k], t,
+                    viol(key, "state=%s event=%d elapsed=%llds (timeout %lds): new state %s, expected %s", sn[s], ev, el[k], t,
                          got < 8 && sn[got] ? sn[got] : "?", sn[timed_out ? N : exp]);
                 } else if (got != s) nontriv++;
             }
